@@ -36,6 +36,9 @@ def run(chk):
                               "%s; closed=%s" % ("4 elements / 2 lists, and 2 elements / 3 lists (list 3 is anchored at another hook of the elements)" if chk.tier == "quick" else "5 elements / 3 lists", closed))
         vlib.run_scripts(chk, dlist, c_exe, m_exe, scripts, dlist.oracle)
         vlib.run_scripts(chk, dlist, c_exe, m_exe, rnd, dlist.oracle)
+        mv = dlist.moving_visitor_scripts()
+        chk.extra["moving_visitor_scripts_on_the_implementation_only"] = len(mv)
+        vlib.run_impl_only(chk, dlist, c_exe, mv, dlist.oracle)
         big = dlist.bigsort_scripts(chk.rng, chk.tier == "quick")
         chk.extra["long_list_sorts"] = [sc[0] for sc in big]
         vlib.run_scripts(chk, dlist, c_exe, m_exe, big, dlist.oracle)
